@@ -160,17 +160,33 @@ class Ref:
         return Ref(self.indep.copy(), self.fork, self.mode)
 
 
+def _alias_key(t):
+    """Two tensor objects that are the same view of the same storage (e.g. `x` and `x.detach()`) must stay aliased in a copy."""
+    if isinstance(t, torch.Tensor) and t.numel() > 0:
+        return ("storage", t.data_ptr(), tuple(t.shape), tuple(t.stride()), str(t.dtype))
+    return ("id", id(t))
+
+
+def _clone_tensor(t, memo):
+    k = _alias_key(t)
+    got = memo.get(k)
+    if got is None:
+        got = t.clone()
+        memo[k] = got
+    return got
+
+
 def _clone_value(v, memo):
     if v is None:
         return None
-    got = memo.get(id(v))
+    got = memo.get(("id", id(v)))
     if got is not None:
         return got
     if isinstance(v, WeightedTensor):
-        out = WeightedTensor(v.value.clone(), None if v.weight is None else v.weight.clone())
+        out = WeightedTensor(_clone_tensor(v.value, memo), None if v.weight is None else _clone_tensor(v.weight, memo))
     else:
-        out = v.clone()
-    memo[id(v)] = out
+        out = _clone_tensor(v, memo)
+    memo[("id", id(v))] = out
     return out
 
 
@@ -178,12 +194,24 @@ def copy_state(st: State) -> State:
     """Harness-owned deep copy (does not go through State.clone, which is itself under test).
     Aliasing between `_values` and `_last_fork` is preserved by the shared memo."""
     new = State.__new__(State)
-    new.dag = st.dag
-    new.auto_fork_type = st.auto_fork_type
     memo = {}
-    new._values = {k: _clone_value(v, memo) for k, v in st._values.items()}
-    new._last_fork = None if st._last_fork is None else {k: _clone_value(v, memo) for k, v in st._last_fork.items()}
-    new._tracked_variables = set(st._tracked_variables)
+    for attr, val in vars(st).items():
+        if attr == "dag":
+            new.dag = st.dag  # immutable, shared
+        elif attr == "_values":
+            new._values = {k: _clone_value(v, memo) for k, v in val.items()}
+        elif attr == "_last_fork":
+            new._last_fork = None if val is None else {k: _clone_value(v, memo) for k, v in val.items()}
+        elif attr == "_lmc_given":
+            pass  # harness bookkeeping, below
+        else:
+            # anything else the implementation keeps on the object (fork mode, tracked variables, and whatever a later version
+            # adds): an independent copy, so that the harness does not depend on the exact list of attributes
+            setattr(new, attr, copy.deepcopy(val))
+    # harness bookkeeping (not part of State): the tensor object that was current before the last plain assignment
+    given = getattr(st, "_lmc_given", None)
+    if given:
+        new._lmc_given = {k: _clone_value(v, memo) for k, v in given.items()}
     return new
 
 
@@ -255,6 +283,8 @@ def apply_op(u: Universe, st: State, ref: Ref, op):
     new object (clone).  Raises StepError on a deviation detectable in the step itself."""
     kind = op[0]
     note = None
+    if kind in ("put", "ctxput", "setshared", "revert", "clone") and getattr(st, "_lmc_given", None):
+        st._lmc_given = {}  # the bookkeeping of "scribble" only describes the state right after a plain assignment
     if kind in ("set", "ctxset"):
         if kind == "ctxset":
             _, mode, v, x = op
@@ -263,6 +293,7 @@ def apply_op(u: Universe, st: State, ref: Ref, op):
             mode = "same"
         val = None if x is None else _clone_value(u.settable[v][x], {})
         eff_mode = ref.mode if mode == "same" else mode
+        prev_obj = st._values.get(v)
         if kind == "ctxset":
             before_mode = st.auto_fork_type
             with st.auto_fork(MODES[mode]):
@@ -271,6 +302,8 @@ def apply_op(u: Universe, st: State, ref: Ref, op):
                 raise StepError("auto_fork context did not restore the fork mode")
         else:
             st[v] = val
+        # (only a snapshot taken by deep copy is isolated from that object, and only if the state does not use it any more)
+        st._lmc_given = {v: prev_obj} if prev_obj is not None and eff_mode == "COPY" else {}
         # documented: a forked state is held "until either reversion or a new assignment"
         ref.fork = (v, ref.indep[v]) if eff_mode is not None else None
         ref.indep[v] = val
@@ -297,6 +330,26 @@ def apply_op(u: Universe, st: State, ref: Ref, op):
             new = _index_put(cur, val, idx, acc) if need_cur else val.clone()
             ref.fork = (v, cur) if ref.mode is not None else None
             ref.indep[v] = new
+    elif kind == "setshared":
+        # ONE tensor object handed to the state as the value of two variables (a proposal tried for two variables / in two
+        # chains): the state may hold it by reference, it must never write into it
+        _, v1, v2, x = op
+        val = _clone_value(u.settable[v1][x], {})
+        st[v1] = val
+        st[v2] = val
+        ref.indep[v1] = _clone_value(val, {})
+        ref.fork = (v2, ref.indep[v2]) if ref.mode is not None else None
+        ref.indep[v2] = _clone_value(val, {})
+    elif kind == "scribble":
+        # COPY strategy ("forked values are deep copies"): the caller re-uses the tensor it had handed in BEFORE the last
+        # assignment for something else (writes into it); the snapshot must not be affected
+        _, v = op
+        held = st._lmc_given.get(v) if hasattr(st, "_lmc_given") else None
+        if held is None:
+            raise StepError("harness: scribble without a previously given tensor")
+        t = held.value if isinstance(held, WeightedTensor) else held
+        t.mul_(0).add_(777.0)
+        st._lmc_given = {}
     elif kind == "to_device":
         # moving the state to the device it is already on changes nothing observable (values, snapshot, fork mode)
         st.to_device(torch.device("cpu"))
@@ -317,10 +370,21 @@ def apply_op(u: Universe, st: State, ref: Ref, op):
             raise StepError("auto_fork context did not restore the fork mode")
         ref.fork = (v, cur) if mode is not None else None
         ref.indep[v] = _index_put(cur, val, idx, acc)
-    elif kind == "read":
+    elif kind in ("read", "readtv"):
         v = op[1]
         exp = u.expected(ref.indep, ref.indep.key())[v] if v in u.observed else None
-        got = _read(st, v)
+        if kind == "readtv":
+            # the other public read of the explored state itself: the plain tensor (weighted value of a weighted tensor)
+            try:
+                got = st.get_tensor_value(v)
+            except LeaspyInputError as exc:
+                got = "ERR:UNSET" if "independent variable which is required" in str(exc) else "ERR:DEF"
+            except Exception:  # noqa: BLE001
+                got = "ERR:DEF"
+            if isinstance(exp, WeightedTensor):
+                exp = exp.weighted_value
+        else:
+            got = _read(st, v)
         if v in u.observed:
             if isinstance(exp, str) or isinstance(got, str):
                 if not _same_error(got, exp):
@@ -427,6 +491,15 @@ def check_all(u: Universe, st: State, ref: Ref, deep: bool = False):
     for n in u.observed:
         got = _read(probe, n)
         e = exp[n]
+        if not isinstance(got, str) and not isinstance(e, str):
+            # the other public read: the plain tensor (weighted value of a weighted tensor)
+            try:
+                tv = probe.get_tensor_value(n)
+                te = e.weighted_value if isinstance(e, WeightedTensor) else e
+                if not same_value(tv, te):
+                    bad.append((n, "get_tensor_value differs from from-scratch evaluation", brief(tv), brief(te)))
+            except Exception as exc:  # noqa: BLE001
+                bad.append((n, f"get_tensor_value raises {type(exc).__name__}", None, brief(e)))
         if isinstance(e, str) or isinstance(got, str):
             if not _same_error(got, e):
                 bad.append(
@@ -435,6 +508,28 @@ def check_all(u: Universe, st: State, ref: Ref, deep: bool = False):
         elif not same_value(got, e):
             bad.append((n, "differs from from-scratch evaluation", brief(got), brief(e)))
     return bad
+
+
+_KNOWN_STATE_ATTRS = ("dag", "_values", "_last_fork", "auto_fork_type", "_tracked_variables", "_lmc_given")
+
+
+def _other_attributes_key(st: State):
+    """Whatever else the implementation keeps on the State object (a later version may add caches): part of the canonical key,
+    so that two states are only merged when they agree on it too.  Empty on the reference implementation."""
+    out = []
+    for attr in sorted(vars(st)):
+        if attr in _KNOWN_STATE_ATTRS:
+            continue
+        val = getattr(st, attr)
+        if isinstance(val, dict):
+            out.append((attr, tuple(sorted((str(k), tdigest(v) if isinstance(v, (torch.Tensor, WeightedTensor)) else repr(v)) for k, v in val.items()))))
+        elif isinstance(val, (set, frozenset)):
+            out.append((attr, tuple(sorted(map(repr, val)))))
+        elif isinstance(val, (torch.Tensor, WeightedTensor)):
+            out.append((attr, tdigest(val)))
+        else:
+            out.append((attr, repr(val)))
+    return tuple(out)
 
 
 def state_key(u: Universe, st: State, ref: Ref):
@@ -449,6 +544,7 @@ def state_key(u: Universe, st: State, ref: Ref):
         fk,
         None if ref.fork is None else (ref.fork[0], tdigest(ref.fork[1])),
         ref.mode,
+        _other_attributes_key(st),
     )
 
 
@@ -468,8 +564,26 @@ def initial(u: Universe, mode=None):
 
 
 def menu(u: Universe, st: State, ref: Ref, *, accumulate=True, clones=True, modes=(None, "REF", "COPY"),
-         reads=None, masks=None, sets=None, ctx=False, puts=True):
-    ops = []
+         reads=None, masks=None, sets=None, ctx=False, puts=True, aliasing=False, tv_reads=()):
+    ops = [["readtv", v] for v in tv_reads if v in u.dag.variables]
+    if aliasing:
+        # one tensor object as the value of two variables of the same shape (first such pair)
+        names = [v for v in u.settable if isinstance(u.settable[v][0], torch.Tensor)]
+        pair = next(((a, b) for i, a in enumerate(names) for b in names[i + 1:]
+                     if u.settable[a][0].shape == u.settable[b][0].shape and u.settable[a][0].dtype == u.settable[b][0].dtype), None)
+        if pair is not None:
+            ops += [["setshared", pair[0], pair[1], 0], ["setshared", pair[0], pair[1], 1]]
+        # COPY strategy: the tensor that was current before the last assignment is re-used (written into) by the caller
+        given = getattr(st, "_lmc_given", None) or {}
+        if ref.mode == "COPY" and ref.fork is not None and ref.fork[0] in given:
+            held = given[ref.fork[0]]
+            ht = held.value if isinstance(held, WeightedTensor) else held
+            in_use = any(
+                (x.value if isinstance(x, WeightedTensor) else x).data_ptr() == ht.data_ptr()
+                for x in st._values.values() if x is not None and isinstance(x.value if isinstance(x, WeightedTensor) else x, torch.Tensor)
+            )
+            if not in_use:
+                ops.append(["scribble", ref.fork[0]])
     for v, vals in (sets if sets is not None else u.settable).items():
         for x in list(range(len(vals))) + [None]:
             ops.append(["set", v, x])
